@@ -167,6 +167,12 @@ var catalogue = []expr{
 	{"seq", "//seq.concat((S orderby .) >> [., .])"}, {"seq", "//seq.join(\",\", S orderby .)"}, {"seq", "(N orderby .) >> (. * 2)"},
 	{"json", "//encoding.json.encode(D)"}, {"json", "//encoding.json.encode(N orderby .)"}, {"json", "//encoding.json.encode((d: D, r: R orderby [.x, .y]))"},
 	{"yaml", "//encoding.yaml.encode(D)"},
+	// encoders and printers of the standard library applied to unordered values directly
+	{"json", "//encoding.json.encode(N)"}, {"json", "//encoding.json.encode(S)"}, {"json", "//encoding.json.encode_indent(D)"},
+	{"json", "//encoding.json.encode(//encoding.json.decode(//encoding.json.encode(D)))"},
+	{"yaml", "//encoding.yaml.encode(N)"}, {"yaml", "//encoding.yaml.encode((d: D, s: S))"},
+	{"pretty", "//fmt.pretty(D)"}, {"pretty", "//fmt.pretty(T)"}, {"pretty", "//fmt.pretty(N)"}, {"pretty", "//fmt.pretty(R)"}, {"pretty", "//fmt.pretty(H)"},
+	{"bits", "//bits.mask({1, 3, 5, 7, 9, 11, 13, 15, 17, 19, 21, 23, 25})"}, {"bits", "//bits.set(33554431 - 1024)"},
 	{"tuple-dict", "//tuple(D)"}, {"tuple-dict", "//dict(T)"}, {"tuple-map", "T :> . + 1"},
 	{"call-multi", "(R => (@: .y, @value: .x))(1)"}, {"call-multi", "(N => (@: . % 4, @value: .))(2)"},
 	{"seqmap-dict", "D >> (. + 1)"}, {"dict-keys", "D => .@"}, {"dict-vals", "(D => .@value) orderby ."},
